@@ -1,8 +1,10 @@
 #!/bin/sh
-# re-confirm every kept seeded change against the current /repo HEAD and the current checks (rewrites meta.json)
-for d in /verif/seeded/*/; do
-  name=$(basename $d); pid=${name%%-*}
-  tmp=/tmp/reval_$$_$name; rm -rf $tmp; cp -r $d $tmp
-  /verif/tools/keep_seed.sh $tmp $pid $name 2>&1 | grep -v conda
-  rm -rf $tmp
-done
+# usage: tools/revalidate_seeds.sh [parallel jobs, default 4] [ids...]
+# Re-confirm every kept seeded change against the current /repo HEAD and the current checks (rewrites meta.json).
+# One job per property; the pinned-suite result is reused when HEAD and patch are unchanged (KEEP_REUSE_SUITE=1).
+j=${1:-4}; [ $# -gt 0 ] && shift
+ids=${*:-$(ls /verif/seeded | sed 's/-.*//' | sort -u)}
+export KEEP_REUSE_SUITE=1
+for pid in $ids; do echo $pid; done | xargs -P $j -I{} sh -c '
+  for d in /verif/seeded/{}-*/; do name=$(basename $d); tmp=/tmp/reval_$$_$name; rm -rf $tmp; cp -r $d $tmp
+    /verif/tools/keep_seed.sh $tmp {} $name 2>&1 | grep -v conda; rm -rf $tmp; done'
